@@ -300,6 +300,8 @@ class MultiDigit(Combinator[int]):
         for i in range(self._digits):
             value *= self._base
             if idx + i < len(data):
+                if not isinstance(data[idx + i], int):
+                    return None
                 if not 0 <= data[idx + i] < self._base:
                     return None
                 value += data[idx + i]
